@@ -8,6 +8,7 @@ import (
 	"sort"
 	"strconv"
 	"strings"
+	"sync"
 
 	"github.com/johannesboyne/gofakes3"
 )
@@ -21,6 +22,37 @@ type Sess struct {
 	vids []string // version ids seen, in order of first appearance
 	opts SessOpts
 	nops int
+
+	// while capturing, operations are recorded instead of written (concurrent rounds emit them afterwards)
+	mute      bool // dry runs: nothing is written to the trace
+	capMu     sync.Mutex
+	capturing bool
+	captured  []capRec
+}
+
+type capRec struct {
+	name  string
+	args  []string
+	o     obsT
+	noteV bool
+}
+
+func (s *Sess) startCapture() { s.capMu.Lock(); s.capturing = true; s.captured = nil; s.capMu.Unlock() }
+func (s *Sess) takeCapture() []capRec {
+	s.capMu.Lock()
+	recs := s.captured
+	s.capturing, s.captured = false, nil
+	s.capMu.Unlock()
+	return recs
+}
+func (s *Sess) flushCapture() {
+	s.capMu.Lock()
+	recs := s.captured
+	s.capturing, s.captured = false, nil
+	s.capMu.Unlock()
+	for _, c := range recs {
+		s.emitOpX(c.name, c.args, c.o, c.noteV)
+	}
 }
 
 type SessOpts struct {
@@ -50,7 +82,12 @@ func newSess(prop, kind string, o SessOpts) *Sess {
 	if o.MetaLimit != 0 {
 		opts = append(opts, gofakes3.WithMetadataSizeLimit(o.MetaLimit))
 	}
-	s := &Sess{prop: prop, kind: kind, st: st, h: newServer(st.Backend, opts...), opts: o}
+	s := &Sess{prop: prop, kind: kind, st: st, opts: o}
+	if st.Ext != nil {
+		s.h = st.Ext // options are command-line flags there; none of the callers uses any
+	} else {
+		s.h = newServer(st.Backend, opts...)
+	}
 	versioned := kind == "mem" && !o.NoVer
 	pre := "-"
 	if isSingle(kind) {
@@ -141,6 +178,16 @@ func (s *Sess) emitOp(name string, args []string, o obsT) { s.emitOpX(name, args
 func (s *Sess) emitOpRaw(name string, args []string, o obsT) { s.emitOpX(name, args, o, false) }
 
 func (s *Sess) emitOpX(name string, args []string, o obsT, noteV bool) {
+	if s.mute {
+		return
+	}
+	s.capMu.Lock()
+	if s.capturing {
+		s.captured = append(s.captured, capRec{name, args, o, noteV})
+		s.capMu.Unlock()
+		return
+	}
+	s.capMu.Unlock()
 	r := o.r
 	etag := o.etag
 	if etag == "" {
